@@ -517,4 +517,46 @@ theorem export_leaf_chain_repeated_ids :
     exact Prod.ext rfl this
   exact export_leaf_chain (run_empty_wf _) (by decide) (by decide : exportStart hNest 4 = some 3) he
 
+/-! ### A copy answers for itself: nothing is taken over from the surroundings of the original -/
+
+/-- Inside a tree a Section answers `get_repository()` (`inherited`) with the repository of the nearest
+    Section above it, or of the Document, when it has none of its own. The copy `clone` hands out is
+    detached and carries the attributes of the original object itself: for EVERY attribute position
+    `k` (the repository is one) it answers with the original's OWN value `ownAttr h x k` - `none` when
+    the original has none, whatever the Sections above the original and its Document carry. This is the
+    clause "detached object equal to the original" for attributes that are looked up in the
+    surroundings; `TemplateHandler.clone_section` is `doc[name].clone(children, keep_id)`. -/
+theorem clone_inherits_nothing {h h' : H} {x c : Nat} {children keep : Bool}
+    (hc : clone h x children keep = (h', .ok c)) (k fuel : Nat) :
+    inherited h' (fuel + 1) c k = ownAttr h x k ∧ ownAttr h' c k = ownAttr h x k := by
+  have hd := (clone_detached_new hc).2.2.1
+  have ha := (clone_root_equal hc).2.2.1
+  have ho : ownAttr h' c k = ownAttr h x k := by simp [ownAttr, ha]
+  refine ⟨?_, ho⟩
+  simp only [inherited, ho, hd]
+  cases ownAttr h x k <;> rfl
+
+/-- A template: Document 0 with the repository 'R', root Section 1 "rig" without one, its sub-Section 2
+    "room" with its own 'Q', root Section 3 "own" with 'S'. (Attribute positions as in the harness:
+    type / author, definition / version, reference / date, repository.) -/
+def hRepo : H := run empty
+  [.newObj .doc "" ["'me'", "'1'", "None", "'R'"] [], .newObj .sec "rig" ["'setup'", "None", "None", "None"] [],
+   .append 0 1, .newObj .sec "room" ["'t'", "None", "None", "'Q'"] [], .append 1 2,
+   .newObj .sec "own" ["'setup'", "None", "None", "'S'"] [], .append 0 3]
+
+/-- The statement is not vacuous, and the hypothesis "what the Sections above carry" matters: in the
+    template "rig" answers with the Document's 'R'; its copy (children and keep_id both ways) answers
+    with nothing, the copies of "room" and "own" with their own, and "room" inside the copy of "rig"
+    still with its own. -/
+theorem clone_inherits_nothing_template :
+    WF hRepo ∧ inherited hRepo 5 1 repoAttr = some "'R'" ∧ ownAttr hRepo 1 repoAttr = none ∧
+    (clone hRepo 1 true false).2 = .ok 4 ∧
+    inherited (clone hRepo 1 true false).1 5 4 repoAttr = none ∧
+    inherited (clone hRepo 1 true false).1 5 5 repoAttr = some "'Q'" ∧
+    inherited (clone hRepo 1 false true).1 5 4 repoAttr = none ∧
+    inherited (clone hRepo 3 true false).1 5 4 repoAttr = some "'S'" ∧
+    inherited (clone hRepo 2 true true).1 5 4 repoAttr = some "'Q'" := by
+  refine ⟨run_empty_wf _, by decide, by decide, by decide, by decide, by decide, by decide, by decide,
+    by decide⟩
+
 end C11
